@@ -209,11 +209,17 @@ func RemoveAll(repo repository.ClockedRepo) error {
 		return err
 	}
 	for remote := range remotes {
-		refs, err := repo.ListRefs(fmt.Sprintf(identityRemoteRefPattern, remote))
+		prefix := fmt.Sprintf(identityRemoteRefPattern, remote)
+		refs, err := repo.ListRefs(prefix)
 		if err != nil {
 			return err
 		}
 		for _, ref := range refs {
+			// this is also where git keeps the remote-tracking branch of a branch of the user named
+			// "identities/<something>": only what designates an identity is removed
+			if entity.Id(strings.TrimPrefix(ref, prefix)).Validate() != nil {
+				continue
+			}
 			err = repo.RemoveRef(ref)
 			if err != nil {
 				return err
